@@ -72,6 +72,9 @@ CANDIDATES = [
                  ['--escape', '--expect-regex', r'^\u{10ffff}$', '--', r'\u{10ffff}'],
                  ['--escape', '--expect-regex', r'^\u{80}$', '--', r'\u{80}'],
                  ['--escape', '--expect-regex', '^~$', '--', '~']]),
+    ('escape_regexp_symbols.', [['--repetitions', '--', 'aaa{2}aaa{2}xaaa{2}aaa{2}x'], ['--repetitions', '--must-not-match', 'aay..yx..y..yx', '--', '..y..yx..y..yx']]),
+    ('format_literal.', [['--repetitions', '--min-rep', '2', '--', 'a{2}a{2}a{2}xa{2}a{2}a{2}xa{2}a{2}a{2}x'], ['--repetitions', '--', 'aaa{2}aaa{2}xaaa{2}aaa{2}x'], ['--repetitions', '--', 'a.a.a.']]),
+    ('grapheme.has_repetitions', [['--repetitions', '--', 'a.a.a.'], ['--repetitions', '--', 'aaa{2}aaa{2}xaaa{2}aaa{2}x']]),
     ('cluster_split.', [['--', r'\\\u{1F3FB}\u{1F3FB}'], ['--', r'\u{0D4E}\u{0D4E}\\'], ['--', r'\\\u{1F3FB}'], ['--', r'\\']]),
     ('caseconv.', [['--ignore-case', '--', 'ABC', 'abc'], ['--ignore-case', '--', r'\u{130}'], ['--ignore-case', '--', 'I', r'\u{130}x']]),
     ('display.', [['--no-start-anchor', '--expect-regex', 'a$', '--', 'a'], ['--no-end-anchor', '--expect-regex', '^a', '--', 'a'],
